@@ -135,6 +135,28 @@ func mkSelect(a, i string) string {
 	return sx("select", a, i)
 }
 
+// simplifySelStore rewrites select(store(A, i, v), i) to v (syntactically equal index)
+// throughout a term. Used on trigger terms only: the solvers normalise ground terms this way
+// before matching, so a trigger that still contains the redex never fires.
+func simplifySelStore(t string) string {
+	if !strings.Contains(t, "(store ") || len(t) == 0 || t[0] != '(' {
+		return t
+	}
+	args := topArgs(t)
+	if len(args) == 0 {
+		return t
+	}
+	for i := 1; i < len(args); i++ {
+		args[i] = simplifySelStore(args[i])
+	}
+	if args[0] == "select" && len(args) == 3 && strings.HasPrefix(args[1], "(store ") {
+		if st := topArgs(args[1]); len(st) == 4 && st[2] == args[2] {
+			return st[3]
+		}
+	}
+	return "(" + strings.Join(args, " ") + ")"
+}
+
 func isFuncNumeral(t string) bool {
 	if len(t) != 7 || t[0] != '1' {
 		return false
